@@ -163,6 +163,9 @@ def gen(tier, seed):
         model.TYPE_WRAP = None
     mods.append(union_module(f'm{n:04d}')); n += 1
     mods.append(generic_module(f'm{n:04d}')); n += 1
+    from .runner import empty_enum_module
+    for el, b in [('Clone', 'Clone'), ('Copy, Clone', 'Copy + Clone')]:
+        mods.append(empty_enum_module(f'm{n:04d}', el, b, FUNCTIONS)); n += 1
     return mods
 
 
